@@ -8,13 +8,16 @@ use crate::sweep::{self, SweepPlan};
 use crate::util::J;
 
 pub mod replay;
+pub mod keycomp;
 pub use replay::replay;
 
 pub fn run(prop: &str, tier: &str, seed: u64) -> i32 {
     let run = Run::new(prop, tier, seed);
     match prop {
         "C01" => c01(&run),
-        "C15" | "C16" | "C18" | "C20" | "SWEEPALL" => generic_sweep(&run, prop),
+        "C02" | "C03" | "C15" => c02_c03_c15(&run, prop),
+        "C11" => c11(&run),
+        "C16" | "C18" | "C20" | "SWEEPALL" => generic_sweep(&run, prop),
         _ => {
             eprintln!("unknown property {prop}");
             2
@@ -26,7 +29,7 @@ pub fn base_plan(quick: bool) -> SweepPlan {
     SweepPlan {
         reach_depth_small: if quick { 3 } else { 4 },
         reach_depth_big: if quick { 2 } else { 3 },
-        mat1: true,
+        mat1: sweep::men1(),
         mat2: vec![],
         ep_extra: vec![],
         ep_restrict_king: quick,
@@ -118,4 +121,134 @@ fn generic_sweep(run: &Run, prop: &str) -> i32 {
 /// Replay of the non-position case kinds (operation lists, sessions, scripts ...), dispatched by kind.
 pub fn replay_other(_run: &Run, _kind: &str, _case: &J) -> Option<i32> {
     None
+}
+
+fn ops_seeds(quick: bool) -> Vec<(String, crate::refchess::Pos, usize)> {
+    let (small, big) = if quick { (4, 3) } else { (5, 4) };
+    families::seeds().iter().map(|s| (s.name.to_string(), crate::refchess::Pos::from_fen(s.fen).unwrap(), if s.big { big } else { small })).collect()
+}
+
+fn c02_c03_c15(run: &Run, prop: &str) -> i32 {
+    use crate::ops::{self, OpMon};
+    let keymap = KeyMap::new();
+    let ctx = make_ctx(run, Mon::for_prop(prop), &keymap);
+    // E1 + E3: one make + take back per transition
+    let mut plan = base_plan(run.quick());
+    plan.promo = true;
+    plan.ep_restrict_king = true;
+    if run.quick() {
+        plan.mat1 = vec![vec![(Color::W, Kind::P)], vec![(Color::B, Kind::P)], vec![(Color::W, Kind::R)], vec![(Color::B, Kind::Q)]];
+        plan.ep_extra = vec![None];
+        plan.castle_enemy = vec![vec![Kind::R]];
+    } else {
+        plan.ep_extra = vec![None, Some((Color::B, Kind::B)), Some((Color::W, Kind::R)), Some((Color::B, Kind::N))];
+        plan.castle_enemy = vec![vec![Kind::R], vec![Kind::B], vec![Kind::Q], vec![Kind::N]];
+    }
+    if prop == "C15" {
+        plan.heavy = Some((9, 10, 10));
+    }
+    let (mut s, mut t) = sweep::run_plan(&ctx, &plan);
+    // E2: nested make / null / take-back sequences
+    let om = OpMon { rules: prop == "C02", key: prop == "C03", accum: prop == "C15", draws: false, nulls: true };
+    let total = std::sync::Mutex::new(crate::monitors::Counts::new());
+    let seeds = ops_seeds(run.quick());
+    let (n, e) = ops::run_ops(&ctx, om, &seeds, &total);
+    run.merge_counts(&total.lock().unwrap());
+    run.family("E2-OPS", &format!("{} seeds, nesting depth {} (large seeds {}), operations: every legal move, null move (not in check, not after a null move), take back; one Game object per (seed, first operation)", seeds.len(), seeds.iter().map(|x| x.2).max().unwrap(), seeds.iter().map(|x| x.2).min().unwrap()), n, e, true, "all sequences");
+    s += n;
+    t += e;
+    if prop == "C03" {
+        let (a, b) = keycomp::check(run);
+        s += a;
+        t += b;
+        run.count("distinct_keys_bound", keymap.len() as u64);
+        run.note(format!("collision map: {} distinct keys bound to identities", keymap.len()));
+    }
+    sweep::sample_states(run);
+    run.sample(J::obj(vec![("family", J::s("E2-OPS")), ("seed", J::s("ep-prepare")), ("ops", J::s("d2d4 e4d3 undo null e1d1 undo undo-null undo ..."))]));
+    for f in ["t_en_passant", "t_castling", "t_promotion", "op_en_passant", "op_castling", "op_promotion", "op_null", "op_null_with_ep_target"] {
+        run.require(f, 5);
+    }
+    run.assume("oracle: refchess apply() for the position after a move (en-passant target compared by the tolerant rule of DESIGN.md 4.1); recomputation from scratch for key and accumulators");
+    let rule = match prop {
+        "C02" => "every transition of the position sweep and every operation of every nested make/null/take-back sequence: result compared field by field with the reference, take-back compared with a full snapshot (placement, side, rights, ep, clocks, key, accumulators, bitboards, history length, FEN); three board views compared on all 64 squares",
+        "C03" => "carried key == key recomputed from scratch after every make / null move / take-back; key -> identity map over all states met (a second identity under one key is a violation); all 838 key components pairwise distinct and non-zero",
+        _ => "carried phase counter and packed piece-square accumulator == recomputation from the board (and == separate 64-bit sums) after every make / null move / take-back",
+    };
+    report::finish(run, s, t, rule, true)
+}
+
+fn c11(run: &Run) -> i32 {
+    use crate::ops::{self, OpMon};
+    use crate::refchess::Pos;
+    let keymap = KeyMap::new();
+    let ctx = make_ctx(run, Mon::for_prop("C11"), &keymap);
+    // material rule on every state of the sweep
+    let mut plan = base_plan(run.quick());
+    plan.mat2 = {
+        let minors = [(Color::W, Kind::B), (Color::W, Kind::N), (Color::B, Kind::B), (Color::B, Kind::N)];
+        let mut v = vec![];
+        for (i, a) in minors.iter().enumerate() {
+            for b in minors.iter().skip(i) {
+                v.push(vec![*a, *b]);
+            }
+        }
+        if run.quick() {
+            v.clear();
+        }
+        v
+    };
+    let (mut s, mut t) = sweep::run_plan(&ctx, &plan);
+    // three minors (must never be declared insufficient): complete for one signature, king-sharded
+    {
+        let total = std::sync::Mutex::new(crate::monitors::Counts::new());
+        let sigs: Vec<Vec<families::Man>> = if run.quick() { vec![vec![(Color::W, Kind::B), (Color::W, Kind::N), (Color::B, Kind::N)]] } else { vec![vec![(Color::W, Kind::B), (Color::W, Kind::N), (Color::B, Kind::N)], vec![(Color::W, Kind::N), (Color::W, Kind::N), (Color::W, Kind::N)], vec![(Color::W, Kind::B), (Color::W, Kind::B), (Color::B, Kind::B)]] };
+        // quick: one seed-selected white-king square (complete for that square); thorough: all 64
+        let wks: Vec<u8> = if run.quick() { vec![(crate::util::mix(run.seed) % 64) as u8] } else { (0..64).collect() };
+        let x = sweep::run_family(&ctx, "F-MAT(kings+3 minors)", &format!("{} signatures, white king on {:?} (complete per king square), black king and men on all squares", sigs.len(), if wks.len() == 1 { format!("{}", crate::refchess::sq_name(wks[0])) } else { "all 64 squares".to_string() }), sigs.len() * wks.len() * 64, &total, &|i, cb| {
+            let sig = &sigs[i / (wks.len() * 64)];
+            let r = i % (wks.len() * 64);
+            families::enumerate_material_kk(wks[r / 64], (r % 64) as u8, sig, cb)
+        });
+        run.merge_counts(&total.lock().unwrap());
+        s += x.0;
+        t += x.1;
+    }
+    // histories
+    let l = if run.quick() { 5 } else { 7 };
+    let base = [
+        ("kr-k", "8/8/8/4k3/8/8/8/R3K3 w Q - 0 1"),
+        ("kr-kr-rights", "r3k3/8/8/8/8/8/8/R3K3 w Qq - 0 1"),
+        ("kq-k", "8/8/8/4k3/8/8/8/3QK3 b - - 0 1"),
+        ("kn-kp", "8/8/4k3/8/8/8/p7/N3K3 w - - 0 1"),
+        ("kb-kb", "5b2/8/4k3/8/8/8/8/2B1K3 w - - 0 1"),
+        ("ep-first", "4k3/8/8/8/3pP3/8/8/4K3 b - e3 0 1"),
+        ("ep-first-pinned", "4k3/8/8/8/r2pP2K/8/8/8 b - e3 0 1"),
+        ("pawns", "4k3/4p3/8/8/8/8/4P3/4K3 w - - 0 1"),
+        ("mate-on-100", "7k/5K2/6Q1/8/8/8/8/8 w - - 98 80"),
+        ("stalemate-on-100", "7k/8/5K2/6Q1/8/8/8/8 w - - 98 80"),
+    ];
+    let mut seeds: Vec<(String, Pos, usize)> = vec![];
+    for (name, fen) in base {
+        let p0 = Pos::from_fen(fen).unwrap();
+        let clocks: &[u32] = if name.contains("100") { &[98] } else { &[0, 3, 97, 98, 99, 100] };
+        for hm in clocks {
+            let mut p = p0.clone();
+            p.halfmove = *hm;
+            seeds.push((format!("{name}@{hm}"), p, if *hm == 0 || name.contains("100") { l } else { l - 1 }));
+        }
+    }
+    let om = OpMon { rules: false, key: false, accum: false, draws: true, nulls: false };
+    let total = std::sync::Mutex::new(crate::monitors::Counts::new());
+    let (n, e) = ops::run_ops(&ctx, om, &seeds, &total);
+    run.merge_counts(&total.lock().unwrap());
+    run.family("E2-HISTORIES", &format!("{} (seed, start clock) pairs, all paths of length <= {} (no state merging), start clocks {{0,3,97,98,99,100}} with empty history", seeds.len(), l), n, e, true, "every node: repetition and fifty-move verdicts vs the path");
+    s += n;
+    t += e;
+    for f in ["repeated_positions", "clock_at_least_100", "clock_100_and_no_legal_move", "material_must_be_draw", "material_must_not_be_draw"] {
+        run.require(f, 3);
+    }
+    run.sample(J::obj(vec![("family", J::s("E2-HISTORIES")), ("seed_fen", J::s("8/8/8/4k3/8/8/8/R3K3 w Q - 97 1")), ("path", J::s("a1a2 e5e6 a2a1 e6e5 (position repeats with castling right lost: not a repetition of the start)"))]));
+    run.assume("repetition oracle: identity = placement, side, rights, en-passant target; where the engine's target convention (enemy pawn adjacent) and the FIDE convention (capture legal) disagree on the verdict nothing is asserted (counted)");
+    report::finish(run, s, t, "material rule on every state of the sweep families; repetition and fifty-move verdicts at every node of every path of the history families, compared with the list of identities since the last capture or pawn move", true)
 }
